@@ -79,14 +79,14 @@ theorem rk23Solve_inv {σ : Type} (P : R23Params α n) (f : Rhs α n) (ob : Obs 
     (firstStep : Option α) (hmaxArg : α) (fuel : Nat) (r : Result σ α n)
     (h : rk23Solve P f ob obs0 x0 y0 firstStep hmaxArg fuel = some r) : MInv r.m r.x P.nmax := by
   unfold rk23Solve at h
-  have hcnt := startMeter_counted f x0 y0 P.posneg firstStep (fun f' k1 =>
+  have hcnt := startMeter_counted f x0 y0 P.posneg P.hmax firstStep (fun f' k1 =>
     Gen.Common.hinit (f := f') (atol := P.atol) (rtol := P.rtol) (y := y0) (f0 := k1) (hmax := hmaxArg) (posneg := P.posneg)
       (x := x0) (iord := Gen.Static.rk23_hinitOrder)) (fun _ _ => hinit_calls ..)
-  have hp := startMeter_pairs f x0 y0 P.posneg firstStep (fun f' k1 =>
+  have hp := startMeter_pairs f x0 y0 P.posneg P.hmax firstStep (fun f' k1 =>
     Gen.Common.hinit (f := f') (atol := P.atol) (rtol := P.rtol) (y := y0) (f0 := k1) (hmax := hmaxArg) (posneg := P.posneg)
       (x := x0) (iord := Gen.Static.rk23_hinitOrder))
   have hm := Meter.counted_cb hcnt x0 x0 y0 #[]
-  have hc0 : ChainTo ((startMeter f x0 y0 P.posneg firstStep (fun f' k1 =>
+  have hc0 : ChainTo ((startMeter f x0 y0 P.posneg P.hmax firstStep (fun f' k1 =>
       Gen.Common.hinit (f := f') (atol := P.atol) (rtol := P.rtol) (y := y0) (f0 := k1) (hmax := hmaxArg) (posneg := P.posneg)
         (x := x0) (iord := Gen.Static.rk23_hinitOrder))).2.2.cb x0 x0 y0 #[]).pairs x0 := by
     rw [Meter.pairs_cb, hp.1]; exact ChainTo.init x0
